@@ -76,6 +76,18 @@ type RunConfig struct {
 	QuietFrac   int           `json:"quiet_start_pct"` // quiet period starts at this % of MaxSteps
 	IdleQuantum time.Duration `json:"idle_quantum"`
 
+	// ClockRates: per server (cycled), the rate of its clock in permille of true time (DESIGN §3.3);
+	// empty = every clock is true. Reset to true time when the quiet period begins.
+	ClockRates []int `json:"clock_rates,omitempty"`
+	// CommitEager: the commit-tracking store persists a staged commit index at once instead of with the
+	// next StoreLogs (what the library's own InmemCommitTrackingStore does); GetCommitIndex may then be
+	// beyond the last index, which raft documents it tolerates
+	CommitEager bool `json:"commit_eager,omitempty"`
+
+	// LateBootstrap: this many of the initial voters start without a configuration and are bootstrapped
+	// live (Raft.BootstrapCluster with the same configuration) some time into the run
+	LateBootstrap int `json:"late_bootstrap,omitempty"`
+
 	LeaseOracle     bool `json:"lease_oracle"`
 	IsolationOracle bool `json:"isolation_oracle"`
 	ShutdownAtEnd   bool `json:"shutdown_at_end"`
@@ -189,6 +201,31 @@ func DrawConfig(ch *simrt.Chooser, profile string, thorough bool) *RunConfig {
 	}
 	if c.TransportTimeout < 8*(c.MinLatency+c.Jitter) {
 		c.TransportTimeout = 8 * (c.MinLatency + c.Jitter)
+	}
+	// knobs added later are drawn last, so that the earlier ones keep their values for a given seed
+	drift := ch.Choose(simrt.SCfg, 2) == 1
+	var rates []int
+	for i := 0; i < 7; i++ {
+		rates = append(rates, pick(ch, 1000, 1000, 800, 900, 950, 1050, 1100, 1250))
+	}
+	switch {
+	case c.LeaseOracle, profile == "clean", profile == "C13b", profile == "C06s2", profile == "C10s2":
+		// the lease oracle measures a server's timers against true time; the S2 sweeps have one server
+	case drift:
+		c.ClockRates = rates
+	}
+	late := pick(ch, 0, 0, 0, 1, 1, 2)
+	switch profile {
+	case "clean", "C13b", "C06s2", "C10s2", "C03f8", "C17b":
+	default:
+		if late > c.Voters-1 {
+			late = c.Voters - 1
+		}
+		c.LateBootstrap = late
+	}
+	eager := ch.Choose(simrt.SCfg, 3) == 1
+	if c.StoreFlavour == FlavourCommitTracking && eager {
+		c.CommitEager = true
 	}
 	return c
 }
